@@ -130,3 +130,104 @@ Example v1_hyps_inhabited :
   let ls := [[CChr 1; CSp; CChr 2]; [CSp; CSp; CChr 4; CSp; CChr 5]; [CSp; CSp; CSp; CSp; CChr 6]] in
   map n_ind (pre (map (scale_line 3) ls)) = [0; 6; 12] /\ map n_ind (pre ls) = [0; 2; 4].
 Proof. split; reflexivity. Qed.
+
+(* ------------------------------------------------------------------------------------ *)
+(* the model with the continuation join (pre_c) *)
+
+(* what `go` reads of a physical line: its stripped text and, if that is not empty, its
+   number of leading blanks *)
+Definition line_eqv (l l' : list ch) : Prop :=
+  strip l' = strip l /\ (strip l <> [] -> lead_sp l' = lead_sp l).
+
+Lemma go_congr :
+  forall ls ls', Forall2 line_eqv ls ls' ->
+  forall i pend, go i pend ls' = go i pend ls.
+Proof.
+  intros ls ls' H. induction H as [|l l' r r' [Hs Hl] Hr IH]; intros i pend; [reflexivity|].
+  assert (Hn : match r' with [] => false | _ => true end = match r with [] => false | _ => true end).
+  { destruct Hr; reflexivity. }
+  simpl. rewrite Hn. unfold join_next. rewrite Hs.
+  destruct pend as [[text ind]|].
+  - destruct (if ends_bsl text then removelast text else text) as [|c t1]; [reflexivity|].
+    rewrite !IH. reflexivity.
+  - destruct (strip l) as [|c s] eqn:Es; [apply IH|].
+    rewrite Hl by discriminate.
+    destruct c; rewrite ?IH; reflexivity.
+Qed.
+
+(* trailing whitespace on ANY physical lines - first lines, continuation lines after a
+   backslash or " or", blank lines - changes nothing *)
+Theorem v1_trailing_ws_cont :
+  forall ls ls',
+    Forall2 (fun l l' => exists ws, forallb is_wsc ws = true /\ l' = l ++ ws) ls ls' ->
+    pre_c ls' = pre_c ls.
+Proof.
+  intros ls ls' H. unfold pre_c. apply go_congr.
+  induction H as [|l l' r r' [ws [Hws ->]] _ IH]; constructor; [|exact IH].
+  split; [now apply strip_app_ws | intros Hne; now apply lead_sp_app_ws].
+Qed.
+
+(* scaling: only the recorded indentation of each statement is multiplied by k *)
+Lemma go_scale :
+  forall k ls i pend,
+    go i (option_map (fun p => (fst p, N.of_nat k * snd p)) pend) (map (scale_line k) ls)
+    = option_map (map (scale_ind k)) (go i pend ls).
+Proof.
+  intros k ls. induction ls as [|l r IH]; intros i pend.
+  - destruct pend as [[t n]|]; reflexivity.
+  - assert (Hn : match map (scale_line k) r with [] => false | _ => true end
+                 = match r with [] => false | _ => true end) by (destruct r; reflexivity).
+    pose proof (IH (i + 1) None) as EN. simpl in EN.
+    pose proof (fun t n => IH (i + 1) (Some (t, n))) as ES. simpl in ES.
+    assert (FIN : forall text ind,
+      (if (ends_bsl text && match r with [] => false | _ => true end) || ends_or text
+       then go (i + 1) (Some (text, N.of_nat k * ind)) (map (scale_line k) r)
+       else option_map (cons {| n_text := text; n_number := i + 1; n_ind := N.of_nat k * ind |})
+                       (go (i + 1) None (map (scale_line k) r)))
+      = option_map (map (scale_ind k))
+          (if (ends_bsl text && match r with [] => false | _ => true end) || ends_or text
+           then go (i + 1) (Some (text, ind)) r
+           else option_map (cons {| n_text := text; n_number := i + 1; n_ind := ind |}) (go (i + 1) None r))).
+    { intros text ind.
+      destruct ((ends_bsl text && match r with [] => false | _ => true end) || ends_or text).
+      - apply ES.
+      - rewrite EN. destruct (go (i + 1) None r); reflexivity. }
+    simpl. rewrite Hn. unfold join_next. rewrite strip_scale_line.
+    destruct pend as [[text ind]|]; simpl.
+    + destruct (if ends_bsl text then removelast text else text) as [|c t1]; [reflexivity|].
+      apply FIN.
+    + destruct (strip l) as [|c s] eqn:Es; [exact EN|].
+      rewrite lead_sp_scale_line.
+      destruct c; try exact EN; apply FIN.
+Qed.
+
+Theorem v1_scale_cont :
+  forall k ls, pre_c (map (scale_line k) ls) = option_map (map (scale_ind k)) (pre_c ls).
+Proof. intros k ls. exact (go_scale k ls 0 None). Qed.
+
+(* on texts without continuation markers the two models agree *)
+Definition no_cont (l : list ch) : bool := negb (ends_bsl (strip l)) && negb (ends_or (strip l)).
+
+Lemma go_no_cont :
+  forall ls, forallb no_cont ls = true -> forall i, go i None ls = Some (pre_go i ls).
+Proof.
+  induction ls as [|l r IH]; intros H i; [reflexivity|].
+  simpl in H. apply andb_prop in H. destruct H as [Hl Hr].
+  unfold no_cont in Hl. apply andb_prop in Hl. destruct Hl as [Hb Ho].
+  apply negb_true_iff in Hb. apply negb_true_iff in Ho.
+  simpl. destruct (strip l) as [|c s] eqn:Es; [now apply IH|].
+  destruct c; try (now apply IH); rewrite Hb, Ho; simpl; rewrite (IH Hr); reflexivity.
+Qed.
+
+Theorem v1_cont_agrees :
+  forall ls, forallb no_cont ls = true -> pre_c ls = Some (pre ls).
+Proof. intros ls H. exact (go_no_cont ls H 0). Qed.
+
+(* hypotheses inhabited: a statement continued over three physical lines, trailing blanks
+   after EVERY line incl. after the second backslash *)
+Example v1_cont_inhabited :
+  let ls  := [[CChr 1; CSp; CChr 92]; [CSp; CSp; CChr 2; CSp; CChr 92]; [CSp; CChr 3]] in
+  let ls' := [[CChr 1; CSp; CChr 92; CSp]; [CSp; CSp; CChr 2; CSp; CChr 92; CSp; CTab]; [CSp; CChr 3; CSp]] in
+  pre_c ls' = pre_c ls /\
+  pre_c ls = Some [{| n_text := [CChr 1; CSp; CChr 2; CSp; CChr 3]; n_number := 3; n_ind := 0 |}].
+Proof. split; vm_compute; reflexivity. Qed.
